@@ -99,11 +99,13 @@ def build_model(p):
     from xrfm import xRFM
     rfm_params = {'model': {'kernel': p['kernel'], 'bandwidth': p['bandwidth'], 'exponent': p['exponent'],
                             'diag': p['diag'], 'bandwidth_mode': 'constant'},
-                  'fit': {'reg': 1e-3, 'iters': p['iters'], 'verbose': False, 'return_best_params': p['return_best'],
+                  'fit': {'reg': p.get('reg', 1e-3), 'iters': p['iters'], 'verbose': False, 'return_best_params': p['return_best'],
                           'early_stop_rfm': False}}
     if p.get('solver_in'):
         # the logistic leaf solver, configured either with the model parameters or with the fit parameters
         rfm_params[p['solver_in']]['solver'] = 'log_reg'
+    if p.get('solver'):
+        rfm_params['fit']['solver'] = p['solver']
     kw = {}
     if p['routing'] == 'soft':
         kw = dict(split_temperature=p['temperature'], use_temperature_tuning=False)
@@ -448,6 +450,18 @@ def gen_cases(run):
                           sep=1.0, kernel=r.choice(['l2', 'l1']), bandwidth=r.choice([3.0, 10.0]), exponent=1.0, diag=False,
                           iters=r.randint(0, 1), return_best=True, dseed=r.randint(0, 10 ** 6), mseed=r.randint(0, 10 ** 6),
                           refit_first=None, replicated=0.8))
+    # singular leaf systems: replicated design point with no / a vanishing ridge, every closed-form solver (a failed
+    # factorisation must end in the regularised retry, never in non-finite coefficients)
+    for i in range(9 if run.tier == 'quick' else 90):
+        K = [2, 3][i % 2]
+        n = r.randint(120, 200)
+        n_val = int(n * 0.45)
+        cases.append(dict(family='fitted-classifiers', K=K, mode=['zero_one', 'prevalence'][(i // 2) % 2], metric=['accuracy', 'f1', None][i % 3],
+                          profile='balanced', routing=['hard', 'soft'][(i // 3) % 2], temperature=0.3, n_trees=1, n_train=n - n_val, n_val=n_val,
+                          d=r.randint(2, 4), max_leaf_size=[BIG_LEAF, 40][(i // 3) % 2], sep=1.0, kernel=r.choice(['l2', 'l2_high_dim']),
+                          bandwidth=r.choice([3.0, 10.0]), exponent=1.0, diag=False, iters=r.randint(0, 1), return_best=True,
+                          dseed=r.randint(0, 10 ** 6), mseed=r.randint(0, 10 ** 6), refit_first=None, replicated=0.8,
+                          reg=[0.0, 1e-9, 0.0][i % 3], solver=['cholesky', 'cholesky', 'solve', 'lu'][i % 4]))
     return cases
 
 
